@@ -30,6 +30,7 @@ def run(ctx, rep):
     rep.rule("E1", "qutrit-to-qubit embedding: the coefficient of the identity padded onto the extra level makes the padded level physical "
                    "(0 for a state, 1/N over the N POVM elements, 1/sqrt(N) over ALL N Kraus operators of a gate / measurement process)", floor=4)
     _e1(ctx, rep)
+    _p2_povm_counts(ctx, rep)
     # ---- O1
     f = ix.func(OP + "_tensor_product")
     p1, p2 = f.params[0], f.params[1]
@@ -275,6 +276,48 @@ def _p2_hs(ctx, rep):
     if not sl_ok or not so_ok:
         problems.append("system_order / size_list are not the names and squared dimensions of the same concatenated system list")
     rep.check(not problems, "P2", h, con, "kron(vec HS1, vec HS2) reordered by I_d1 (x) K(d2,d1) (x) I_d2, then by subsystem name", "; ".join(problems), node=h.node)
+
+
+def _p2_povm_counts(ctx, rep):
+    """_tensor_product_Povm_Povm: the outcome counts stored on the result are the name-sorted ones (the elements are permuted to ascending
+    subsystem name, so the shape must be too)"""
+    from ..astutil import deep_inline
+    f = ctx.ix.func(OP + "_tensor_product_Povm_Povm")
+    con = "outcome counts of the product follow the sorted subsystem order"
+    stores = [n for n in own_nodes(f.node) if isinstance(n, ast.Assign) and len(n.targets) == 1 and isinstance(n.targets[0], ast.Attribute)
+              and n.targets[0].attr in ("_nums_local_outcomes", "nums_local_outcomes")]
+    kws = [k.value for n in own_nodes(f.node) if isinstance(n, ast.Call) for k in n.keywords if k.arg == "nums_local_outcomes"]
+    vals = [n.value for n in stores] + kws
+    if not vals:
+        rep.undecided("P2", f, con, "no store of the outcome counts found")
+        return
+    allb = {}
+    for n in own_nodes(f.node):
+        if isinstance(n, ast.Assign) and len(n.targets) == 1 and isinstance(n.targets[0], ast.Name):
+            allb.setdefault(n.targets[0].id, []).append(n.value)
+
+    def derives_from_sorted(x, seen=frozenset(), depth=0):
+        if depth > 6:
+            return False
+        for y in ast.walk(x):
+            if isinstance(y, ast.Call) and dotted(y.func) == "sorted":
+                return True
+        for y in ast.walk(x):
+            if isinstance(y, ast.Name) and y.id in allb and y.id not in seen:
+                if any(derives_from_sorted(b, seen | {y.id}, depth + 1) for b in allb[y.id]):
+                    return True
+        return False
+    for v in vals:
+        e = deep_inline(f, v)
+        # the sorted list: built from sorted(zip(names, counts)) / sorted(..., key=...)
+        if derives_from_sorted(e):
+            rep.holds("P2", f, con, "counts taken from the name-sorted pairs", node=v)
+        elif isinstance(e, ast.Name) or (isinstance(e, ast.BinOp) and isinstance(e.op, ast.Add)) or isinstance(e, ast.Call):
+            rep.violation("P2", f, con, "the result stores `%s` as its outcome counts, which is in ARGUMENT order; its elements are permuted to ascending "
+                                        "subsystem name, so for operands handed over out of order with different outcome counts the multi-index labels the "
+                                        "wrong elements" % unparse(v), node=v)
+        else:
+            rep.undecided("P2", f, con, "stored counts %s not recognised" % unparse(e)[:60])
 
 
 # ------------------------------------------------------------------------------ E1
